@@ -55,11 +55,12 @@ type RealSpec struct {
 
 // RealResult is a generated real image with what the oracles need to know about it.
 type RealResult struct {
-	Node    *Node
-	Layers  []*RealLayer
-	History []map[string]any
-	DiffIDs []string
-	Foreign *Blob
+	Node        *Node
+	Layers      []*RealLayer
+	History     []map[string]any
+	DiffIDs     []string
+	Foreign     *Blob
+	Contentless bool // some layer has no file content
 }
 
 // RealImage generates an image whose layers are real tar archives and whose
@@ -116,7 +117,19 @@ func (g *G) RealImageSpec(sp RealSpec) *RealResult {
 			lcomp = "gzip"
 		}
 		rl := &RealLayer{Comp: lcomp}
-		for k, nf := 0, 1+g.c(3, "files"); k < nf; k++ {
+		// now and then a layer without any file content (what WORKDIR, mkdir, ln -s, touch or rm leave):
+		// a directory, a symlink, an empty file, a whiteout
+		contentless := !foreign && i > 0 && g.c(5, "contentless") == 4
+		if contentless {
+			g.n++
+			mt := base.Add(time.Duration(g.c(1000, "mtime")) * time.Hour)
+			_ = tw.WriteHeader(&tar.Header{Name: fmt.Sprintf("work%d/", g.n), Typeflag: tar.TypeDir, Mode: 0o755, ModTime: mt})
+			_ = tw.WriteHeader(&tar.Header{Name: fmt.Sprintf("work%d/link", g.n), Typeflag: tar.TypeSymlink, Linkname: "../etc/common.conf", Mode: 0o777, ModTime: mt})
+			_ = tw.WriteHeader(&tar.Header{Name: fmt.Sprintf("work%d/empty", g.n), Typeflag: tar.TypeReg, Size: 0, Mode: 0o644, ModTime: mt})
+			_ = tw.WriteHeader(&tar.Header{Name: fmt.Sprintf("dir%d/.wh.file1.txt", nBase), Typeflag: tar.TypeReg, Size: 0, Mode: 0o644, ModTime: mt})
+			res.Contentless = true
+		}
+		for k, nf := 0, 1+g.c(3, "files"); k < nf && !contentless; k++ {
 			g.n++
 			name := fmt.Sprintf("dir%d/file%d.txt", nBase+i, k)
 			if k == 0 {
@@ -143,8 +156,11 @@ func (g *G) RealImageSpec(sp RealSpec) *RealResult {
 			by = fmt.Sprintf("|1 SECRET=hunter%d /bin/sh -c build layer%d", i, nBase+i)
 		}
 		hist = append(hist, map[string]any{"created": base.Add(time.Duration(i+1) * time.Hour).Format(time.RFC3339), "created_by": by})
-		if i == 0 && g.c(2, "emptyhist") == 1 {
-			hist = append(hist, map[string]any{"created": base.Add(time.Duration(i+1)*time.Hour + time.Minute).Format(time.RFC3339), "created_by": "LABEL version=1.0", "empty_layer": true})
+		// history entries without a layer (ARG, LABEL, VOLUME ...), none to three in a row after any layer
+		if g.c(2, "emptyhist") == 1 {
+			for k, ne := 0, 1+g.c(3, "nempty"); k < ne; k++ {
+				hist = append(hist, map[string]any{"created": base.Add(time.Duration(i+1)*time.Hour + time.Duration(k+1)*time.Minute).Format(time.RFC3339), "created_by": fmt.Sprintf("LABEL step%d=%d", nBase+i, k), "empty_layer": true})
+			}
 		}
 	}
 	g.n++
